@@ -7,13 +7,14 @@ mod world;
 
 use runner::{Options, Prop, Tier};
 
-fn prop_by_id(id: &str) -> Option<Box<dyn Prop>> {
+fn prop_by_id(id: &str, thorough: bool) -> Option<Box<dyn Prop>> {
     Some(match id {
         "C01" => Box::new(props::c01::Framing { cancel: false }),
         "C07" => Box::new(props::c01::Framing { cancel: true }),
         "C02" => Box::new(props::c02::Outbound),
         "C06" => Box::new(props::c06::ChainProp { borrowed: false }),
         "C11" => Box::new(props::c06::ChainProp { borrowed: true }),
+        "C17" => Box::new(props::c17::Bounded { production: thorough }),
         _ => return None,
     })
 }
@@ -29,7 +30,7 @@ fn main() {
         usage();
     }
     runner::install_panic_hook();
-    let prop = match prop_by_id(&args[0]) {
+    let prop = match prop_by_id(&args[0], args[1] != "quick") {
         Some(p) => p,
         None => {
             eprintln!("unknown property {}", args[0]);
